@@ -36,6 +36,8 @@ var c05Pages = []string{
 	`<p>alpha beta</p><picture data-zzk="zq9"><source srcset="s.png 1x" data-zzk="zq9"><img src="p.png" data-zzk="zq9"></picture><span data-zzk="zq9"><img src="q.png" data-zzk="zq9"></span>`,
 	// 10 figure without caption, picture
 	`<p>alpha beta</p><figure data-zzk="zq9"><picture data-zzk="zq9"><source srcset="s.png 1x" data-zzk="zq9"><img src="p.png" data-zzk="zq9"></picture></figure>`,
+	// 11 paragraphs whose whole text sits inside one inline element
+	`<div data-zzk="zq9"><strong data-zzk="zq9">alpha beta gamma</strong></div><p data-zzk="zq9"><span data-zzk="zq9">delta <i data-zzk="zq9">eps</i></span></p><ul><li data-zzk="zq9"><a href="/l" data-zzk="zq9">item</a></li></ul>`,
 }
 
 type c05Counter struct{}
